@@ -53,6 +53,8 @@ class StoreChunkFaults(c12.StoreChunk):
         path, compress = self._target()
         c.prove("only-the-target-path-may-have-changed", other_entries_untouched(c, [path]), kind="exc")
         c.prove("earlier-chunk-unchanged", self.other.initial, kind="exc")
+        c.prove("a-failed-store-does-not-delete-the-earlier-version-it-never-overwrote",
+                all(not (e.initial and getattr(e, "unlinked", False)) for e in get_fs().entries), kind="exc")
 
 
 @register
@@ -230,3 +232,115 @@ def _use(fn):
 
 for _cls in (StoreChunkFaults, FetchChunkFaults, StoreFileFaults, FetchFileFaults, FileExistsFaults):
     _cls.replay = _use(_native.faults_sweep)
+
+
+# --------------------------------------------------------------------------- bounded: faults on the writer's buffer files
+
+from pyvc.verify import BoundedUnit  # noqa: E402
+
+
+@register
+class ShardedCloseLostBuffersBounded(BoundedUnit):
+    """The on-disk buffer classes of the sharded writer (OnDiskByteArray / OnDiskBytesDict: generators over real
+    temporary files) are outside the executor's reach. Bounded stand-in for the fault clause of C18 on them: when
+    buffer files cannot be opened at close(), close() fails with an OSError / DataAccessError, or else everything
+    it was given reads back; what was stored and closed earlier stays readable and unchanged; no wrong bytes."""
+    name = "bounded:sharded-close-with-lost-or-unreadable-buffer-files"
+    props = ("C18",)
+    bound = ("one 2x2x2-chunk dataset, sharding (1,1,1), raw; the z=0 half stored and closed, then the z=1 half stored "
+             "(strategy on disk) and, before close(), the writer's new temporary files: all deleted / the first deleted / "
+             "the last deleted / one replaced by a directory / untouched")
+
+    def cases(self, cfg, tier):
+        import atexit
+        import copy
+        import pathlib
+        import tempfile
+        from neuroglancer_scripts.accessor import DataAccessError
+        from neuroglancer_scripts.sharded_file_accessor import ShardedFileAccessor
+        info = {"type": "image", "data_type": "uint8", "num_channels": 1, "scales": [{
+            "key": "s0", "size": [2, 2, 2], "chunk_sizes": [[1, 1, 1]], "encoding": "raw", "resolution": [1, 1, 1],
+            "voxel_offset": [0, 0, 0],
+            "sharding": {"@type": "neuroglancer_uint64_sharded_v1", "minishard_bits": 1, "shard_bits": 1, "preshift_bits": 1,
+                         "hash": "identity", "minishard_index_encoding": "raw", "data_encoding": "raw"}}]}
+        cells = list(itertools.product(range(2), range(2), range(2)))
+        coords = lambda c_: (c_[0], c_[0] + 1, c_[1], c_[1] + 1, c_[2], c_[2] + 1)
+        payload = {c_: bytes([17 + i]) * (3 + i) for i, c_ in enumerate(cells)}
+        lower = [c_ for c_ in cells if c_[2] == 0]
+        upper = [c_ for c_ in cells if c_[2] == 1]
+
+        def read_back(d, which):
+            rd = ShardedFileAccessor(d)
+            rd.info = copy.deepcopy(info)
+            ok = wrong = 0
+            errs = []
+            for c_ in which:
+                try:
+                    got = rd.fetch_chunk("s0", coords(c_))
+                except Exception as e:           # absent / unreadable: not data
+                    errs.append(type(e).__name__)
+                    continue
+                if got == payload[c_]:
+                    ok += 1
+                else:
+                    wrong += 1
+            return ok, wrong, errs
+
+        def scenario(fault):
+            def thunk():
+                import contextlib
+                import io
+                with contextlib.redirect_stdout(io.StringIO()):
+                    return inner()
+
+            def inner():
+                saved = tempfile.tempdir
+                with tempfile.TemporaryDirectory() as top:
+                    d = str(pathlib.Path(top, "dataset"))
+                    private = pathlib.Path(top, "tmp")
+                    private.mkdir()
+                    tempfile.tempdir = str(private)
+                    try:
+                        a1 = ShardedFileAccessor(d, strategy="on disk")
+                        a1.info = copy.deepcopy(info)
+                        for c_ in lower:
+                            a1.store_chunk(payload[c_], "s0", coords(c_))
+                        a1.close()
+                        atexit.unregister(a1.close)
+                        if read_back(d, lower)[0] != len(lower):
+                            return "set-up: the first half does not read back"
+                        before = {f for f in private.rglob("*") if f.is_file()}
+                        a2 = ShardedFileAccessor(d, strategy="on disk")
+                        a2.info = copy.deepcopy(info)
+                        for c_ in upper:
+                            a2.store_chunk(payload[c_], "s0", coords(c_))
+                        new = sorted({f for f in private.rglob("*") if f.is_file()} - before)
+                        victims = {"all": new, "first": new[:1], "last": new[-1:], "dir": new[:1], "none": []}[fault]
+                        for f in victims:
+                            f.unlink()
+                            if fault == "dir":
+                                f.mkdir()
+                        failed = None
+                        try:
+                            a2.close()
+                        except (OSError, DataAccessError) as e:
+                            failed = e
+                        except Exception as e:
+                            return f"close() raised {type(e).__name__} (not an I/O or data-access error): {e}"
+                        finally:
+                            atexit.unregister(a2.close)
+                        ok, wrong, errs = read_back(d, upper)
+                        if wrong:
+                            return f"{wrong} chunk(s) read back with wrong bytes after the failed close"
+                        if failed is None and ok != len(upper):
+                            return (f"close() returned normally although {len(victims)} buffer file(s) could not be opened, "
+                                    f"but only {ok}/{len(upper)} chunks read back ({errs})")
+                        ok, wrong, errs = read_back(d, lower)
+                        if ok != len(lower):
+                            return f"chunks stored and closed earlier no longer read back ({ok} ok, {wrong} wrong, {errs})"
+                        return None
+                    finally:
+                        tempfile.tempdir = saved
+            return thunk
+        for fault in ("all", "first", "last", "dir", "none"):
+            yield f"fault={fault}", scenario(fault)
